@@ -71,6 +71,74 @@ def check_config_passthrough(prop: str, res: Result, repo: Repo):
         res.ok(rule, {"site": bi.where, "why": "the given dict (a copy, minus the popped selector key) is passed on as it is"}, nontrivial="config")
 
 
+def check_config_stable(prop: str, res: Result, repo: Repo):
+    """R-CONFIG: a validation hook (`_validate_fields`) may default a setting that was left None, swap two settings or coerce a type; it
+    never replaces a value that was given (a clamp changes the indicator another indicator's `_initialise` asked for by value)"""
+    rule = "R-CONFIG"
+    n = 0
+    for ci in repo.shipped() + [repo.indicator_base()]:
+        m = ci.methods.get("_validate_fields")
+        if m is None:
+            continue
+        fields = set(repo.all_fields(ci))
+        known_none: dict = {}
+
+        def is_none_test(t):
+            """(field, polarity): `self.f is None` / `not self.f` -> (f, True); `self.f is not None` / `self.f` -> (f, False)"""
+            if isinstance(t, ast.UnaryOp) and isinstance(t.op, ast.Not):
+                r = is_none_test(t.operand)
+                return (r[0], not r[1]) if r else None
+            if isinstance(t, ast.Compare) and len(t.ops) == 1 and isinstance(t.comparators[0], ast.Constant) and t.comparators[0].value is None and isinstance(t.left, ast.Attribute) and isinstance(t.left.value, ast.Name) and t.left.value.id == "self":
+                return (t.left.attr, isinstance(t.ops[0], (ast.Is, ast.Eq)))
+            if isinstance(t, ast.Attribute) and isinstance(t.value, ast.Name) and t.value.id == "self":
+                return (t.attr, False)
+            return None
+
+        def walk(body, none_now):
+            none_now = set(none_now)
+            for s in body:
+                if isinstance(s, ast.Assign):
+                    known_none[id(s)] = set(none_now)
+                if isinstance(s, ast.If):
+                    r = is_none_test(s.test)
+                    walk(s.body, none_now | ({r[0]} if r and r[1] else set()))
+                    walk(s.orelse, none_now | ({r[0]} if r and not r[1] else set()))
+                    ends = bool(s.body) and isinstance(s.body[-1], (ast.Return, ast.Raise)) and not s.orelse
+                    if r and not r[1] and ends:
+                        none_now.add(r[0])
+                elif isinstance(s, (ast.For, ast.While, ast.With, ast.Try)):
+                    for fld in ("body", "orelse", "finalbody"):
+                        walk(getattr(s, fld, []) or [], none_now)
+                for t in ast.walk(s) if isinstance(s, (ast.Assign, ast.AugAssign)) else ():
+                    if isinstance(t, ast.Attribute) and isinstance(t.ctx, ast.Store):
+                        none_now.discard(t.attr)
+
+        walk(m.node.body, set())
+        for st in [x for x in ast.walk(m.node) if isinstance(x, ast.Assign)]:
+            tgts = [t for t in st.targets for t in (t.elts if isinstance(t, ast.Tuple) else [t]) if isinstance(t, ast.Attribute) and isinstance(t.value, ast.Name) and t.value.id == "self" and t.attr in fields]
+            if not tgts:
+                continue
+            n += 1
+            vals = st.value.elts if isinstance(st.value, ast.Tuple) else [st.value]
+            swap = len(tgts) >= 2 and all(isinstance(v, ast.Attribute) and ast.unparse(v) in {ast.unparse(t) for t in tgts} for v in vals)
+            ok = swap
+            for t in tgts:
+                if ok:
+                    break
+                # defaulting: somewhere above, `if self.<field> is None:`
+                guarded = t.attr in known_none.get(id(st), set())
+                v = st.value
+                coercion = isinstance(v, ast.Call) and isinstance(v.func, ast.Name) and v.func.id in ("int", "float", "str", "bool") and len(v.args) == 1 and ast.unparse(v.args[0]) == f"self.{t.attr}"
+                validator = isinstance(v, ast.Call) and call_name(v).startswith("validate_")
+                ok = guarded or coercion or validator
+            if ok:
+                res.ok(rule, {"site": f"{m.where} {norm_construct(st)[:70]}", "why": "defaulting / swap / coercion"})
+            else:
+                res.fail(rule, finding(prop, rule, m, st, f"{ci.name}._validate_fields replaces a setting that was given (`{norm_construct(st)[:80]}`): the instance is no longer the indicator its configuration (or the composite that builds it as a helper) describes"))
+    if n == 0:
+        res.ok(rule, {"why": "no validation hook rewrites a setting"})
+
+
 def check_cursor_kept(prop: str, res: Result, repo: Repo):
     """R-CURSOR: calculate_index leaves the cursor on the last index it computed: helpers are read back through it (reading() without
     an index) right after they were recomputed"""
